@@ -4,7 +4,7 @@ from ._replies_common import run_reply_stream
 
 THEOREMS = [("Sylvia.Thm.C08", "C08." + t) for t in
             ["ids_distinct", "numeric_ids_injective", "trigger_spec", "submsg_preserves", "msg_converted", "payload_roundtrip_one", "payload_roundtrip_many", "id_string_injective_on_shape"]] + \
-           [("Sylvia.Thm.Obl.Tables", "Obl.extraction_complete")]
+           [("Sylvia.Thm.Obl.Complete.C08", "Obl.extraction_complete_C08")]
 
 
 def run(ctx):
